@@ -4,7 +4,10 @@ import gen
 
 IMPL_MODULE = "version_impl"
 RULE = ("pairs/triples/lists of spellings of structured versions and their order neighbours (equal spellings, local added/removed, "
-        "bumped/padded/dropped components) plus mutated spellings; non-trivial = both operands accepted; distinct by input text")
+        "bumped/padded/dropped components) plus mutated spellings; wide stream: big epochs, 12/40-component releases, big and random alphanumeric "
+        "local segments with one-character perturbations, zero runs up to 50, all 29 whitespace code points; law-rank compares the six operators, "
+        "hash, set and sorted() with an independent reference order computed from the generating structure; "
+        "non-trivial = both operands accepted; distinct by input text")
 ASSUMPTIONS = ["hash(): only 'equal implies equal hash' is observed, CPython's hash function itself is not modelled"]
 
 def pool(rng, n):
@@ -37,7 +40,49 @@ def streams(rng, tier):
     for _ in range(1500 if q else 30000):
         base = rng.choice(vs); nb = gen.neighbours(rng, base) + [base, rng.choice(vs)]
         out.append(Case("law-triples", "law.v.triple", [gen.spell(rng, rng.choice(nb)) for _ in range(3)], kind="law"))
+    # ---- improvement round: wider generators (big epochs, 12/40-component releases, big / random local segments, all 29 whitespace
+    #      code points, zero runs up to 50), hash agreement in the correspondence, and the independent reference order gen.rank ----
+    wv = []
+    for _ in range(150 if q else 1500):
+        v = gen.rand_v_wide(rng); wv.append(v)
+        if rng.random() < 0.7: wv += rng.sample(gen.neighbours_wide(rng, v), 2)
+    allv = vs + wv
+    for _ in range(2500 if q else 50000):
+        v1 = rng.choice(wv)
+        k = rng.random()
+        if k < 0.45: v2 = rng.choice(gen.neighbours_wide(rng, v1))
+        elif k < 0.6: v2 = rng.choice(gen.neighbours(rng, v1))
+        elif k < 0.7: v2 = v1
+        else: v2 = rng.choice(allv)
+        a, b = gen.spell_wide(rng, v1), gen.spell_wide(rng, v2)
+        out.append(Case("pairs-wide", "v.cmph", [a, b]))
+        out.append(Case("law-rank", "law.v.rank", [a, b, gen.rel_of(v1, v2)], kind="law"))
+    for _ in range(2500 if q else 50000):
+        v1 = rng.choice(vs)
+        v2 = rng.choice(gen.neighbours(rng, v1) + [v1]) if rng.random() < 0.7 else rng.choice(allv)
+        a, b = gen.spell(rng, v1), gen.spell(rng, v2)
+        out.append(Case("law-rank", "law.v.rank", [a, b, gen.rel_of(v1, v2)], kind="law"))
+        if rng.random() < 0.3: out.append(Case("pairs-hash", "v.cmph", [a, b]))
+    for _ in range(100 if q else 2000):
+        base = rng.choice(wv)
+        items = [gen.spell_wide(rng, rng.choice(gen.neighbours_wide(rng, base) + [base])) for _ in range(rng.choice([2, 3, 5, 8, 13]))]
+        out.append(Case("sorted-wide", "v.sort", items))
+        out.append(Case("law-sortperm", "law.v.sortperm", [str(rng.randrange(10**6))] + items, kind="law"))
+        out.append(Case("law-triples", "law.v.triple", items[:3], kind="law"))
+    if not q:       # magnitudes just below CPython's 4300-digit int() limit (the model takes seconds for each, so thorough tier only)
+        a, b, c3 = gen.HUGE4K
+        for x, y in [(a, b), (b, a), (a, a), (c3, a)]:
+            for tpl in ["%d", "1.%d", "%d!1", "1+%d", "1.post%d"]:
+                v1, v2 = tpl % x, ("0" * 40 + tpl if tpl[0] == "%" else tpl) % y
+                out.append(Case("pairs-4k", "v.cmph", [v1, v2]))
+                out.append(Case("law-rank", "law.v.rank", [v1, v2, "<" if x < y else ">" if x > y else "="], kind="law"))
     return out
+
+def compare(c, i, m):
+    if i == m: return None
+    if c.cmd == "v.cmph" and i[:-1] == m[:-1] and m.endswith("|F") and i.endswith("|T"):
+        return None      # different keys may hash alike (e.g. hash(2**61-1) == hash(0)); equal keys must hash alike
+    return "implementation differs from model"
 
 def nontrivial(c, i):
     return i not in ("E", "ok") or c.kind == "law"
